@@ -128,6 +128,54 @@ def drift_search(d):
 
 
 # ----------------------------------------------------------------- implementation side
+def _raw_attrs_memory(store, fmt):
+    """the attribute document as stored, parsed from the stored bytes by Python's json (not by zarr)"""
+    from zarr.core.buffer import default_buffer_prototype
+    from zarr.core.sync import sync
+
+    key = ".zattrs" if fmt == 2 else "zarr.json"
+    buf = sync(store.get(key, prototype=default_buffer_prototype()))
+    doc = json.loads(buf.to_bytes().decode("utf-8"))
+    return doc if fmt == 2 else doc.get("attributes", {})
+
+
+def _raw_attrs_disk(path, fmt):
+    import os
+
+    with open(os.path.join(path, ".zattrs" if fmt == 2 else "zarr.json"), encoding="utf-8") as fh:
+        doc = json.load(fh)
+    return doc if fmt == 2 else doc.get("attributes", {})
+
+
+def _has_nan(t):
+    if isinstance(t, list):
+        return any(_has_nan(x) for x in t)
+    if isinstance(t, dict):
+        if t.get("f") == "nan":
+            return True
+        return any(_has_nan(x) for _, x in t.get("o", []))
+    return False
+
+
+def _form(forms, name, geff_value, dump_tok):
+    """register one serialised form of the metadata: its verdict under the published schema and whether
+    its leaves (values AND JSON types: a number must stay a number) are those of model_dump(mode="json")"""
+    try:
+        tok = mc.canon(mc.enc(geff_value))
+    except TypeError as e:
+        tok = f"not JSON-native: {e}"
+    inst = {"geff": geff_value}
+    vp = schemas()["v_published"].is_valid(inst)
+    f = {"name": name, "valid": vp, "same_as_dump": tok == dump_tok}
+    if not vp:
+        f["errors"] = [f"{'/'.join(map(str, e.absolute_path))}: {e.message[:120]}"
+                       for e in list(schemas()["v_published"].iter_errors(inst))[:3]]
+    if not f["same_as_dump"]:
+        f["inst"] = inst
+        f["tok"] = tok
+    forms.append(f)
+
+
 def _same(a, b):
     return mc.canon(mc.enc(a.model_dump())) == mc.canon(mc.enc(b.model_dump()))
 
@@ -158,6 +206,10 @@ def impl_obs(case):
         obs["dump"] = mc.canon(mc.enc(d))
     except TypeError as e:
         obs["dump"] = f"not JSON-native: {e}"
+    # every serialised form is collected here and judged against the published schema
+    forms: list = []
+    dump_tok = obs["dump"]
+    has_nan = _has_nan(dump_tok)
     # JSON text
     probs = []
     try:
@@ -166,13 +218,23 @@ def impl_obs(case):
         if not _same(o2, obj):
             probs.append({"route": "model_dump_json -> model_validate_json", "text": txt[:400],
                           "back": mc.canon(mc.enc(o2.model_dump()))})
-        elif obs["viol"] == "valid" and o2 != obj:
+        elif obs["viol"] == "valid" and not has_nan and o2 != obj:
             probs.append({"route": "model_dump_json -> model_validate_json (==)", "text": txt[:400]})
-        o2b = GeffMetadata.model_validate_json(obj.model_dump_json(indent=2))
+        txt2 = obj.model_dump_json(indent=2)
+        o2b = GeffMetadata.model_validate_json(txt2)
         if not _same(o2b, obj):
             probs.append({"route": "model_dump_json(indent=2) -> model_validate_json"})
+        # the text as any JSON reader sees it (Python's json reads the Infinity / NaN constants)
+        _form(forms, "model_dump_json()", json.loads(txt), dump_tok)
+        _form(forms, "model_dump_json(indent=2)", json.loads(txt2), dump_tok)
     except Exception as e:  # noqa: BLE001
         probs.append({"route": "model_dump_json -> model_validate_json", "exc": f"{type(e).__name__}: {str(e)[:200]}"})
+    try:
+        from geff_spec import GeffSchema
+
+        _form(forms, "GeffSchema(geff=obj).model_dump_json()", json.loads(GeffSchema(geff=obj).model_dump_json()).get("geff"), dump_tok)
+    except Exception as e:  # noqa: BLE001
+        probs.append({"route": "GeffSchema.model_dump_json", "exc": f"{type(e).__name__}: {str(e)[:200]}"})
     try:
         o3 = GeffMetadata.model_validate(json.loads(json.dumps(d)))
         if not _same(o3, obj):
@@ -182,7 +244,7 @@ def impl_obs(case):
         probs.append({"route": "json.dumps -> json.loads", "exc": f"{type(e).__name__}: {str(e)[:200]}"})
     obs["json_text"] = probs
     # zarr attributes, both formats, MemoryStore
-    zp, zc = [], []
+    zp = []
     for fmt in (2, 3):
         try:
             store = MemoryStore()
@@ -197,14 +259,10 @@ def impl_obs(case):
             attrs = dict(zarr.open_group(store, mode="r").attrs)
             if not _same(back, obj):
                 zp.append({"fmt": fmt, "what": "object differs", "back": mc.canon(mc.enc(back.model_dump()))})
-            stored = attrs.get("geff")
-            if mc.canon(mc.enc(stored)) != obs["dump"]:
-                # not a violation by itself (the model says: what is stored is the dump) ...
-                zc.append({"fmt": fmt, "what": "stored geff attribute is not model_dump(mode='json')",
-                           "stored": mc.canon(mc.enc(stored))})
-                # ... unless the stored form does not validate against the published schema
-                if not verdicts({"geff": stored})[0]:
-                    zp.append({"fmt": fmt, "what": "stored geff attribute does not validate against geff-schema.json"})
+            # the stored attribute, as zarr decodes it and as parsed from the stored bytes
+            _form(forms, f"zarr v{fmt} attrs['geff'] (zarr's decoding)", attrs.get("geff"), dump_tok)
+            _form(forms, f"zarr v{fmt} stored bytes ({'.zattrs' if fmt == 2 else 'zarr.json'})",
+                  _raw_attrs_memory(store, fmt).get("geff"), dump_tok)
             rest = {k: v for k, v in attrs.items() if k != "geff"}
             if mc.canon(mc.enc(rest)) != mc.canon(mc.enc(foreign)):
                 zp.append({"fmt": fmt, "what": "foreign attributes changed", "attrs": mc.canon(mc.enc(rest))})
@@ -228,10 +286,12 @@ def impl_obs(case):
                     rest = {k: v for k, v in dict(zarr.open_group(path, mode="r").attrs).items() if k != "geff"}
                     if mc.canon(mc.enc(rest)) != mc.canon(mc.enc(foreign)):
                         zp.append({"fmt": fmt, "what": "directory store: foreign attributes changed"})
+                    _form(forms, f"directory store v{fmt} file on disk", _raw_attrs_disk(path, fmt).get("geff"), dump_tok)
                     res = CliRunner().invoke(app, ["info", path])
                     if res.exit_code != 0:
                         zp.append({"fmt": fmt, "what": f"geff info exit {res.exit_code}: {str(res.exception)[:200]}"})
                     else:
+                        _form(forms, f"geff info (v{fmt} directory store)", json.loads(res.stdout), dump_tok)
                         o4 = GeffMetadata.model_validate_json(res.stdout)
                         if not _same(o4, obj):
                             zp.append({"fmt": fmt, "what": "geff info output does not read back to the same object",
@@ -239,7 +299,7 @@ def impl_obs(case):
         except Exception as e:  # noqa: BLE001
             zp.append({"what": "directory store / geff info", "exc": f"{type(e).__name__}: {str(e)[:200]}"})
     obs["zarr"] = zp
-    obs["zarr_corr"] = zc
+    obs["forms"] = forms
     # schema
     inst = {"geff": d}
     vp, ve = verdicts(inst)
@@ -342,11 +402,30 @@ def units_and_types():
     for u in list(vv.VALID_SPACE_UNITS) + list(vv.VALID_TIME_UNITS) + ["furlong", ""]:
         for t in list(vv.VALID_AXIS_TYPES) + [None]:
             out.append({**req, "axes": [{"name": "a", "type": t, "unit": u, "scale": 2.0, "scaled_unit": u}]})
+    # every float field x every non-finite value the domain allows (NaN only where no invariant speaks)
+    inf, nan = mc.INF, mc.NAN
+    for fld, vals in (("scale", (inf, -inf, nan)), ("offset", (inf, -inf, nan))):
+        for v in vals:
+            out.append({**req, "axes": [{"name": "a", fld: v}, {"name": "b", "type": "time", fld: v, "unit": "second"}]})
+    for lo, hi in ((-inf, inf), (-inf, 0), (0, inf), (-inf, -inf), (inf, inf), (-inf, 1.5)):
+        out.append({**req, "axes": [{"name": "a", "min": lo, "max": hi}]})
+        out.append({**req, "axes": [{"name": "a", "min": lo, "max": hi, "scale": inf, "offset": nan, "scaled_unit": "meter"},
+                                    {"name": "b"}],
+                    "display_hints": {"display_horizontal": "a", "display_vertical": "b"}})
     for dt in vv.VALID_DTYPES:
         for vl in (False, True):
             out.append({**req, "node_props_metadata": {"p": {"identifier": "p", "dtype": dt, "varlength": vl}},
                         "edge_props_metadata": {"q": {"identifier": "q", "dtype": dt, "unit": "u", "name": "n", "description": "d"}}})
     return out
+
+
+def _nonfinite(d):
+    for a in (d.get("axes") or []):
+        for k in ("min", "max", "scale", "offset"):
+            v = a.get(k)
+            if isinstance(v, float) and (v != v or v in (mc.INF, -mc.INF)):
+                return True
+    return False
 
 
 def corpus():
@@ -373,9 +452,15 @@ def judge(ck, case, im):
     for p in im["zarr"]:
         what = p.get("what", "")
         key = ("C08:foreign-attrs-changed" if "foreign" in what else "C08:json-text-roundtrip" if "geff info" in what
-               else "C08:stored-attrs-invalid-against-schema" if "does not validate" in what else "C08:zarr-attrs-roundtrip")
+               else "C08:zarr-attrs-roundtrip")
         ck.fail(key, f"zarr attributes (format {p.get('fmt')}): {p.get('what') or p.get('exc')}", case, p, "equal object, foreign attributes preserved")
         break
+    for f in im.get("forms", []):
+        if not f["valid"]:
+            ck.fail("C08:serialised-form-fails-published-schema",
+                    f"the serialised form {f['name']} of a valid metadata object does not validate against geff-schema.json: "
+                    + "; ".join(f.get("errors", [])), case, {k: v for k, v in f.items() if k != "tok"}, "valid")
+            break
     if not im["schema"]["published"]:
         ck.fail("C08:dump-invalid-against-published-schema", "model_dump(mode='json') of a valid object does not validate against geff-schema.json",
                 case, im["schema"], "valid")
@@ -409,7 +494,7 @@ def run(ck: common.Check):
         foreign = mc.gen_extra(ck.rng) if ck.rng.random() < 0.7 else {}
         foreign.pop("geff", None)
         cases.append({"doc": d, "foreign": foreign, "via": ("validate", "kwargs", "json")[i % 3], "stale": i % 5 == 0,
-                      "disk": i % (60 if ck.quick else 120) == 7,
+                      "disk": i % (60 if ck.quick else 120) == 7 or (_nonfinite(d) and i % 4 == 0),
                       "mut_idx": [ck.rng.randrange(10 ** 6) for _ in range(nmut)]})
     # the first documents get *all* their mutations
     for c in cases[: (5 if ck.quick else 40)]:
@@ -425,6 +510,15 @@ def run(ck: common.Check):
             continue
         reqs.append({"op": "roundtrip", "env": mc.make_env(c["doc"]), "doc": mc.enc(c["doc"]), "foreign": mc.enc(c.get("foreign", {}))})
         owners.append((idx, "rt", None))
+        for fi, f in enumerate(im.get("forms", [])):
+            if f["same_as_dump"] or "inst" not in f:
+                continue  # equal to the dump: the roundtrip request already evaluates the Lean evaluator on it
+            try:
+                e = mc.enc(f["inst"])
+            except TypeError:
+                continue
+            reqs.append({"op": "validate", "env": mc.make_env_light(f["inst"]), "which": "published", "inst": e})
+            owners.append((idx, "form", fi))
         for mi, m in enumerate(im.get("mutations", [])):
             try:
                 e = mc.enc(m["inst"])
@@ -448,6 +542,9 @@ def run(ck: common.Check):
         judge(ck, c, im)
         nm += len(im.get("mutations", []))
     ck.extra["mutations_judged"] = nm
+    ck.extra["serialised_forms_judged"] = sum(len(im.get("forms", [])) for im in impl)
+    ck.extra["documents_with_nonfinite_axis_values"] = sum(1 for c in cases if "doc" in c and _nonfinite(c["doc"]))
+    ck.extra["documents_through_disk_and_cli"] = sum(1 for c in cases if c.get("disk"))
     if model is not None:
         for (idx, kind, mi), mo in zip(owners, model):
             c, im = cases[idx], impl[idx]
@@ -462,8 +559,10 @@ def run(ck: common.Check):
                     continue
                 if mc.canon(mo["dump"]) != im["dump"]:
                     lim.corr_broken("C08:dump", c["doc"], im["dump"], mc.canon(mo["dump"]))
-                for zc in im.get("zarr_corr", [])[:1]:
-                    lim.corr_broken("C08:stored-attribute-is-dump", c["doc"], zc, "stored attribute = dump")
+                for f in [f for f in im.get("forms", []) if not f["same_as_dump"]][:1]:
+                    # the model says: every serialised form denotes the dump, leaf for leaf and JSON type for JSON type
+                    lim.corr_broken("C08:serialised-form-is-dump(values-and-types)", c["doc"],
+                                    {"form": f["name"], "serialised": f.get("tok")}, "equal to model_dump(mode='json')")
                 if mo["valid"] != (im["viol"] == "valid"):
                     lim.corr_broken("C08:lean-spec-vs-python-oracle", c["doc"], im["viol"], mo["valid"])
                 if im["viol"] == "valid":
@@ -472,6 +571,11 @@ def run(ck: common.Check):
                     if mo["schema_ok"] != im["schema"]["published"] or mo["schema_ok_published"] != im["schema"]["published"]:
                         lim.corr_broken("C08:evaluator-vs-jsonschema(dump)", c["doc"], im["schema"],
                                        {"spec": mo["schema_ok"], "published": mo["schema_ok_published"]})
+            elif kind == "form":
+                f = im["forms"][mi]
+                if mo["verdict"] != f["valid"]:
+                    lim.corr_broken("C08:evaluator-vs-jsonschema(serialised form)", {"form": f["name"], "inst": f["inst"]},
+                                    f["valid"], mo["verdict"])
             else:
                 m = im["mutations"][mi]
                 if mo["verdict"] != m["published"]:
